@@ -305,6 +305,11 @@ func c19RunCase(idx int, in *c19Input, intern *c02Intern) (res *c19Result) {
 		if same && c19HasSort(text) && len(in.Backends) == 1 {
 			same = c19RowSeq(obsA) == c19RowSeq(obsB)
 		}
+		if !same && len(in.Backends) > 1 && !c19HasSort(text) && (strings.Contains(text, "\nLimit:") || strings.Contains(text, "\nOffset:")) {
+			// a window over the unsorted union of several backends: which rows fall into it depends on the order the
+			// per-backend results arrive in (C06's tie rule); only the shape of the answer is comparable
+			same = obsA.kind == obsB.kind && obsA.code == obsB.code && len(obsA.rows) == len(obsB.rows) && obsA.total == obsB.total
+		}
 		if !same {
 			res.notes = append(res.notes, fmt.Sprintf("query %d differs: %q\n A: %.600s\n B: %.600s", qi, text, c19ObsText(obsA), c19ObsText(obsB)))
 		}
@@ -410,6 +415,42 @@ func c19AsQE(in *c19Input) *qeDataset {
 	return ds
 }
 
+// c19Consistent: exactly one status row, services / comments / downtimes name existing hosts.
+func c19Consistent(bin *c02Input) bool {
+	hosts := map[string]bool{}
+	for _, t := range bin.Tables {
+		if t.Name == "hosts" {
+			for ci, c := range t.Cols {
+				if c == "name" {
+					for _, row := range t.Rows {
+						hosts[fmt.Sprintf("%v", row[ci])] = true
+					}
+				}
+			}
+		}
+	}
+	for _, t := range bin.Tables {
+		switch t.Name {
+		case "status":
+			if len(t.Rows) != 1 {
+				return false
+			}
+		case "services", "comments", "downtimes":
+			for ci, c := range t.Cols {
+				if c == "host_name" {
+					for _, row := range t.Rows {
+						if !hosts[fmt.Sprintf("%v", row[ci])] {
+							return false
+						}
+					}
+				}
+			}
+		}
+	}
+
+	return true
+}
+
 func c19Gen(r *vRand, hist map[string]int, tier string) *c19Input {
 	in := &c19Input{}
 	nb := 1 + r.intn(2)
@@ -425,13 +466,9 @@ func c19Gen(r *vRand, hist map[string]int, tier string) *c19Input {
 		var bin *c02Input
 		for {
 			bin = g.gen(refPct)
-			// well-formed backends only: the malformed classes belong to C02
-			ok := bin.Short == nil
-			for _, t := range bin.Tables {
-				if t.Name == "status" && len(t.Rows) != 1 {
-					ok = false
-				}
-			}
+			// well-formed, consistent backends only: the malformed classes belong to C02 (and a filter on
+			// host_custom_variables of a service without host takes lmd down - C09's finding, not this property's)
+			ok := bin.Short == nil && c19Consistent(bin)
 			if ok {
 				break
 			}
